@@ -516,8 +516,11 @@ func filecmd(h FileCmder, r *Request, pkt requestPacket) responsePacket {
 			if err != nil {
 				return statusFromError(pkt.id(), err)
 			}
-			stat.ID = pkt.id()
-			return stat
+			// the handler may hand out the same object again (a constant, a cache),
+			// and the reply is marshalled later: complete a copy, not the handler's object
+			reply := *stat
+			reply.ID = pkt.id()
+			return &reply
 		}
 
 		return statusFromError(pkt.id(), ErrSSHFxOpUnsupported)
